@@ -118,4 +118,14 @@ C16_NewS  == (MapsOver(<<C16_KA, C16_KB>>, C16_OpLeaves) \ {SD("dict", NoVal, <<
 C16_Docs3  == SetToSeq(C16_BaseS \cup C16_NewS)
 C16_Range3 == << <<1, Cardinality(C16_BaseS \cup C16_NewS)>> >>
 
+\* key names that are not identifiers: a top-level key "a.b" next to a real nested a.b,
+\* and a key with a dash (paths are key SEQUENCES; a key is never re-parsed as a path)
+C16_KD == SKey("a.b")  C16_KH == SKey("x-y")
+C16_BaseDot == {SD("dict", NoVal, <<<<C16_KA, SD("dict", NoVal, <<<<C16_KB, c>>>>)>>, <<C16_KD, d>>, <<C16_KH, C16_List(<<"5">>)>>>>)
+                : c \in {C16_L("1"), C16_List(<<"1">>)}, d \in {C16_L("4"), C16_List(<<"4">>)}}
+C16_DotLeaves == {C16_Op("append", <<"7">>), C16_Op("extend", <<"7">>), C16_Prev(<<C16_KA, C16_KB>>), C16_L("2")}
+C16_NewDot == MapsOver(<<C16_KA, C16_KD, C16_KH>>, C16_DotLeaves) \ {SD("dict", NoVal, <<>>)}
+C16_DocsDot  == SetToSeq(C16_BaseDot) \o SetToSeq(C16_NewDot)
+C16_RangeDot == << <<1, Cardinality(C16_BaseDot)>>, <<Cardinality(C16_BaseDot) + 1, Cardinality(C16_BaseDot) + Cardinality(C16_NewDot)>> >>
+
 =============================================================================
